@@ -671,12 +671,13 @@ _ORDER = {c: i for i, c in enumerate(FULL)}
 # backslash-newline) combined with leading indentation, i.e. unrepairable errors on multi-line logical lines - the
 # branch of the recovery loop that re-parses the joined line recursively
 TOK9 = ["a", "=", " ", "    ", "\t", "\n", "\\\n", '"""', "'''"]
+TOK8 = [t for t in TOK9 if t != "="]  # quick tier
 
 
 def b_families(thorough):
     """(name, alphabet, lengths in symbols/tokens).  Strings already covered by an earlier family are skipped."""
     if not thorough:
-        return [("full<=3", FULL, (0, 1, 2, 3)), ("A16=4", A16, (4,)), ("A10=5", A10, (5,)), ("TOK9<=5", TOK9, (1, 2, 3, 4, 5))]
+        return [("full<=3", FULL, (0, 1, 2, 3)), ("A16=4", A16, (4,)), ("A10=5", A10, (5,)), ("TOK8<=5", TOK8, (1, 2, 3, 4, 5))]
     return [("full<=4", FULL, (0, 1, 2, 3, 4)), ("A16=5", A16, (5,)), ("A10=6", A10, (6,)), ("TOK9<=6", TOK9, (1, 2, 3, 4, 5, 6))]
 
 
@@ -847,7 +848,7 @@ def run(ctx):
     if only.startswith("B:"):  # development aid: one family
         _BFAMS = [f for f in _BFAMS if f[0].startswith(only[2:])]
     items = b_items(_BFAMS)
-    resb = common.pmap(_do_prefix, items, ctx.jobs, chunk=8, init=_init_worker, seed=ctx.seed)
+    resb = common.pmap(_do_prefix, items, ctx.jobs, chunk=1, init=_init_worker, seed=ctx.seed)
     nb = sum(r["n"] for r in resb)
     ocb = {}
     for r in resb:
